@@ -65,6 +65,12 @@ func (s *SX) String() string {
 		return "(" + s.Tok + " " + strings.Join(b, ", ") + " :: " + s.Args[0].String() + ")"
 	case "assert":
 		return s.Args[0].String() + ".(" + s.Tok + ")"
+	case "lit":
+		var a []string
+		for _, x := range s.Args {
+			a = append(a, x.String())
+		}
+		return s.Tok + "{" + strings.Join(a, ", ") + "}"
 	case "ite":
 		return "(" + s.Args[0].String() + " ? " + s.Args[1].String() + " : " + s.Args[2].String() + ")"
 	}
@@ -382,6 +388,19 @@ func (ps *sparser) postfix() *SX {
 				ps.expect("]")
 				x = &SX{Op: "idx", Args: []*SX{x, lo}, Pos: t.pos}
 			}
+		case ps.isOp("{") && (x.Op == "id" || x.Op == "sel"):
+			t := ps.next()
+			args := []*SX{}
+			if !ps.isOp("}") {
+				for {
+					args = append(args, ps.expr())
+					if !ps.accept(",") {
+						break
+					}
+				}
+			}
+			ps.expect("}")
+			x = &SX{Op: "lit", Tok: x.String(), Args: args, Pos: t.pos}
 		case ps.isOp("("):
 			t := ps.next()
 			args := []*SX{x}
